@@ -35,6 +35,12 @@ CLAIMED = {
         "note": "Trusted: z3, symx, BlindNP (argmax -> arbitrary index), HybridNdi (map_coordinates on a symbolic mesh -> opaque array of the mesh's shape), _upsampled_dft output shape (conformance-tested), real numpy/scipy for concrete landscape data, exact reals for float32. Not covered: finite scores/NaN from compiled kernels (division safety is in C07).",
         "ref": "DESIGN.md §4 C05",
     },
+    "C14": {
+        "text": "Placement rule decided for symbolic position, scale, template sides (both parities) and rotation matrix: tomogram voxel t of the pasted fragment reads template coordinate (shape-1)/2 + R^-1(t - pos/scale); "
+                "_prep_slices decided over unbounded integers for every clipping case (pairing t<->t-start, exactly the overlap kept, non-overlapping fragments dropped); simulate/simulate_2d executed on a recording canvas: one += per molecule from its component's template at its own slice, 2-D = z-sum.",
+        "note": "Trusted: z3, symx, C02's affine_transform contract, real dask.delayed. Not covered: interpolation accuracy off-grid; simulate_projection/tilt series/colour.",
+        "ref": "DESIGN.md §4 C14",
+    },
 }
 
 NOT_APPLICABLE = {
